@@ -71,6 +71,8 @@ def one_run(prop, seed, tier, index, keep_case=False):
 
 def _chunk_worker(prop_id, tier, items):
     """runs in a pool process; items = [(index, seed)]"""
+    from . import refmodel
+    refmodel.quiet()
     prop = load_prop(prop_id)
     out = []
     for index, seed in items:
